@@ -178,6 +178,12 @@ class LanguageClassesFactory:
         self._generate_assets()
         self._generate_associations()
 
+        # A language may define no associations (or no assets); JSON Schema
+        # does not allow an empty 'oneOf'.
+        for group in ('LanguageAsset', 'LanguageAssociation'):
+            if not self.json_schema['definitions'][group]['oneOf']:
+                del self.json_schema['definitions'][group]['oneOf']
+
         if logger.isEnabledFor(logging.DEBUG):
             # Avoid running json.dumps when not in debug
             logger.debug(json.dumps(self.json_schema, indent = 2))
